@@ -181,6 +181,145 @@ type lockInfo struct {
 	Method string
 	Mode   string // LockExclusive | LockShared | LockNone
 	Defer  bool
+	// Shape: for a locking method, the body starts with `recv.Lock()` (or RLock) immediately
+	// followed by `defer recv.Unlock()` (RUnlock) and contains no other lock call: the whole
+	// method is one critical section. For a method that takes no lock: it does not touch a
+	// field of the receiver (it only calls other methods).
+	Shape bool
+}
+
+func isRecvCall(e ast.Expr, recv string, names ...string) bool {
+	ce, ok := e.(*ast.CallExpr)
+	if !ok {
+		return false
+	}
+	sel, ok := ce.Fun.(*ast.SelectorExpr)
+	if !ok {
+		return false
+	}
+	id, ok := sel.X.(*ast.Ident)
+	if !ok || id.Name != recv {
+		return false
+	}
+	for _, n := range names {
+		if sel.Sel.Name == n {
+			return true
+		}
+	}
+	return false
+}
+
+// recvFields collects the receiver fields written by a method: on the left of an assignment or
+// ++/--, under &, or as the first argument of delete.
+func recvWrites(fd *ast.FuncDecl, into map[string]bool) {
+	if fd.Recv == nil || len(fd.Recv.List[0].Names) == 0 || fd.Body == nil {
+		return
+	}
+	recv := fd.Recv.List[0].Names[0].Name
+	mark := func(e ast.Expr) {
+		ast.Inspect(e, func(n ast.Node) bool {
+			if sel, ok := n.(*ast.SelectorExpr); ok {
+				if id, ok := sel.X.(*ast.Ident); ok && id.Name == recv {
+					into[sel.Sel.Name] = true
+				}
+			}
+			return true
+		})
+	}
+	ast.Inspect(fd.Body, func(n ast.Node) bool {
+		switch x := n.(type) {
+		case *ast.AssignStmt:
+			for _, l := range x.Lhs {
+				mark(l)
+			}
+		case *ast.IncDecStmt:
+			mark(x.X)
+		case *ast.UnaryExpr:
+			if x.Op == token.AND {
+				mark(x.X)
+			}
+		case *ast.CallExpr:
+			if id, ok := x.Fun.(*ast.Ident); ok && id.Name == "delete" && len(x.Args) > 0 {
+				mark(x.Args[0])
+			}
+		}
+		return true
+	})
+}
+
+func methodShape(fd *ast.FuncDecl, mode string, mutable map[string]bool) bool {
+	recv := ""
+	if len(fd.Recv.List[0].Names) > 0 {
+		recv = fd.Recv.List[0].Names[0].Name
+	}
+	if recv == "" {
+		return false
+	}
+	nLock := 0
+	ast.Inspect(fd.Body, func(n ast.Node) bool {
+		if ce, ok := n.(*ast.CallExpr); ok {
+			if sel, ok := ce.Fun.(*ast.SelectorExpr); ok {
+				switch sel.Sel.Name {
+				case "Lock", "RLock", "Unlock", "RUnlock", "TryLock", "TryRLock":
+					nLock++
+				}
+			}
+		}
+		return true
+	})
+	if mode == "LockNone" {
+		if nLock != 0 {
+			return false
+		}
+		// no field access through the receiver: every selector on the receiver is a call
+		ok := true
+		ast.Inspect(fd.Body, func(n ast.Node) bool {
+			if ce, isCall := n.(*ast.CallExpr); isCall {
+				if sel, isSel := ce.Fun.(*ast.SelectorExpr); isSel {
+					if id, isId := sel.X.(*ast.Ident); isId && id.Name == recv {
+						for _, a := range ce.Args {
+							ast.Inspect(a, func(m ast.Node) bool {
+								if s2, k := m.(*ast.SelectorExpr); k {
+									if i2, k2 := s2.X.(*ast.Ident); k2 && i2.Name == recv && mutable[s2.Sel.Name] {
+										ok = false
+									}
+								}
+								return true
+							})
+						}
+						return false // do not descend into the method selector itself
+					}
+				}
+			}
+			if sel, isSel := n.(*ast.SelectorExpr); isSel {
+				if id, isId := sel.X.(*ast.Ident); isId && id.Name == recv && mutable[sel.Sel.Name] {
+					// reads a field that some method writes, outside any lock
+					ok = false
+				}
+			}
+			return true
+		})
+		return ok
+	}
+	if len(fd.Body.List) < 2 || nLock != 2 {
+		return false
+	}
+	es, ok := fd.Body.List[0].(*ast.ExprStmt)
+	if !ok {
+		return false
+	}
+	lock, unlock := "Lock", "Unlock"
+	if mode == "LockShared" {
+		lock, unlock = "RLock", "RUnlock"
+	}
+	if !isRecvCall(es.X, recv, lock) {
+		return false
+	}
+	ds, ok := fd.Body.List[1].(*ast.DeferStmt)
+	if !ok {
+		return false
+	}
+	return isRecvCall(ds.Call, recv, unlock)
 }
 
 func lockDiscipline(file, typ string) ([]lockInfo, error) {
@@ -190,6 +329,28 @@ func lockDiscipline(file, typ string) ([]lockInfo, error) {
 		return nil, err
 	}
 	var out []lockInfo
+	recvType := func(fd *ast.FuncDecl) string {
+		rt := fd.Recv.List[0].Type
+		if st, ok := rt.(*ast.StarExpr); ok {
+			rt = st.X
+		}
+		if ix, ok := rt.(*ast.IndexExpr); ok {
+			rt = ix.X
+		}
+		if ix, ok := rt.(*ast.IndexListExpr); ok {
+			rt = ix.X
+		}
+		if id, ok := rt.(*ast.Ident); ok {
+			return id.Name
+		}
+		return ""
+	}
+	mutable := map[string]bool{}
+	for _, d := range f.Decls {
+		if fd, ok := d.(*ast.FuncDecl); ok && fd.Recv != nil && len(fd.Recv.List) > 0 && fd.Body != nil && recvType(fd) == typ {
+			recvWrites(fd, mutable)
+		}
+	}
 	for _, d := range f.Decls {
 		fd, ok := d.(*ast.FuncDecl)
 		if !ok || fd.Recv == nil || len(fd.Recv.List) == 0 || fd.Body == nil {
@@ -245,6 +406,7 @@ func lockDiscipline(file, typ string) ([]lockInfo, error) {
 			}
 			return true
 		})
+		li.Shape = methodShape(fd, li.Mode, mutable)
 		out = append(out, li)
 	}
 	sort.Slice(out, func(i, j int) bool { return out[i].Method < out[j].Method })
@@ -305,6 +467,14 @@ func main() {
 				b.WriteString(";\n   ")
 			}
 			fmt.Fprintf(&b, "(\"%s\", %s, %v)", li.Method, li.Mode, li.Defer)
+		}
+		b.WriteString("].\n")
+		fmt.Fprintf(&b, "(* one-critical-section shape of each method (see tools/gosrc methodShape) *)\nDefinition %s_shapes : list (string * bool) :=\n  [", l.Name)
+		for i, li := range infos {
+			if i > 0 {
+				b.WriteString(";\n   ")
+			}
+			fmt.Fprintf(&b, "(\"%s\", %v)", li.Method, li.Shape)
 		}
 		b.WriteString("].\n")
 	}
